@@ -222,6 +222,12 @@ def check(ctx: Ctx):
     ctx.analysed(fi)
     refine.check_wrap(ctx)
     refine.check_image_readonly(ctx)
+    # the fit region is the candidate's own boolean image: the sharp branch of every renderer must use the class' own interface
+    from ..rules import render, support
+
+    for cname in ("DiffuseDroplet", "PerturbedDropletBase"):
+        support.compose(ctx, render.check_renderer, cname, rules=("SHARP", "WIDTH", "CAST"), keep=("SHARP", "WIDTH", "CAST"))
+    ctx.expect("SHARP", 2)
     ctx.expect("LAYOUT", 6)
     ctx.expect("MASK", 2)
     ctx.expect("START", 2)
